@@ -492,14 +492,14 @@ def _check_final_members(cls, class_dict, ctx):
       continue
     if isinstance(base, abstract.PyTDClass):
       # TODO(mdemello): Unify this with IntepreterClass
-      for m in methods:
+      for m in sorted(methods):
         member = base.final_members.get(m)
         if isinstance(member, pytd.Function):
           ctx.errorlog.overriding_final_method(ctx.vm.frames, cls, base, m)
         elif member:
           ctx.errorlog.overriding_final_attribute(ctx.vm.frames, cls, base, m)
     else:
-      for m in methods:
+      for m in sorted(methods):
         if m in base.members:
           if any(x.final for x in base.members[m].data):
             ctx.errorlog.overriding_final_method(ctx.vm.frames, cls, base, m)
